@@ -119,6 +119,9 @@ func one(c caseT) {
 	if cm.Message != c.Message {
 		report("message-reads-back", c, "message read back as %q, written %q", cm.Message, c.Message)
 	}
+	if len(cm.Parents) != 0 {
+		report("commit-reads-back", c, "a commit written without parent is read back with parents %v", cm.Parents)
+	}
 	if cm.Tree.String() != tree {
 		report("commit-reads-back", c, "tree read back as %s", cm.Tree)
 	}
@@ -136,7 +139,7 @@ func main() {
 	instants := []int64{1, 59, 86399, 1000000000, 1<<31 - 1, 1 << 31, 4102444800, 253402300799}
 	names := []string{"A", "Al Bo", "Al  Bo", "é ü", "O'N", "a>b", "x@y", strings.Repeat("N", 200)}
 	emails := []string{"a@b.co", "a.b+c-d_e@x-y.z9.org", "A9@a1.b2.info"}
-	messages := []string{"", "m", "a: b", "l1\nl2", "l1\n\nl3", "\nlead", "trail\n", "é", strings.Repeat("x", 4096), "tree deadbeef", "author x", "l1\nparent " + strings.Repeat("0", 40)}
+	messages := []string{"", "m", "a: b", "l1\nl2", "l1\n\nl3", "\nlead", "trail\n", "é", strings.Repeat("x", 4096), "tree deadbeef", "author x", "l1\nparent " + strings.Repeat("0", 40), "100% of %s %d", "l1\ntree " + strings.Repeat("ab", 20) + "\nauthor A <a@b.co> 1 +0000"}
 	// all 105 quarter-hour offsets x instants
 	for off := -12 * 60; off <= 14*60; off += 15 {
 		for _, s := range instants {
